@@ -2059,6 +2059,9 @@ class ElseIf(OR):
                     yield left_value
             # If left produced no values at all, evaluate right against sources
             if not any_left:
+                # a left operand that yields nothing at all did not hold (whoever looks at its truth flag afterwards, like a
+                # rule's alternative choosing a conclusion, must not see the flag of an earlier binding).
+                self.left._is_false_ = True
                 right_prev = self.right._eval_parent_
                 self.right._eval_parent_ = self
                 try:
